@@ -72,6 +72,11 @@ theorem length_le_encMany (ss : List Section) : ss.length ≤ (encMany encSectio
     simp only [encMany, encSection, List.length_cons, List.length_append, List.cons_append]
     omega
 
+theorem encU32_small (v : Nat) (h : v < 128) : encU32 v = [v] := by
+  unfold encU32
+  rw [encU]
+  simp [Nat.div_eq_of_lt h, Nat.mod_eq_of_lt h]
+
 /-! ## name section -/
 
 theorem decAssoc_encAssoc (a : Nat × Bytes) (h : U32 a.1 ∧ U32 a.2.length) (rest : Bytes) :
